@@ -41,7 +41,13 @@ package rules
 //   m23 SyncRaw looks up another key                → R-C19-5 looks up the adapter's key
 //   m24 SyncRawPrefix breaks out of the copy loop   → R-C19-5 every key copied; send after the copy is complete
 //   m25 GetRaw with clientv3.WithSerializable()     → R-C19-2 linearizable read
+//   m26 adapter send made non-blocking (`select { case ch <- m: default: }`), m27 send with a
+//       time.After alternative, m28 `if len(ch) < cap(ch) { ch <- m }`
+//                                                   → R-C19-5 exactly one send per snapshot (a send that is a
+//                                                     select communication counts only when its case is taken)
 // behaviour-preserving edits (all exit 0):
+//   b10 `select { case ch <- m: case <-s.done: }` (snapshot abandoned only on Close); b11 select
+//   with the send as its only case;
 //   b01 locals renamed; b02 comparison extracted into a bool + early return + send before
 //   `data = newData`; b03 `!(len(b)==len(a))`, value-only entry comparison with swapped
 //   arguments, `isKeyValueEqual(data2[k1], kv1)` without the exists test; b04 `old := data;
